@@ -104,6 +104,9 @@ func roundTripValue(v px.Value, o *Obs) {
 // roundTripType prints t, parses the text back with Context.ParseType, and compares.
 func roundTripType(t px.Type, o *Obs) {
 	var text string
+	if _, isObj := t.(px.ObjectType); isObj {
+		expandedObs(t, o.Aux)
+	}
 	c, m := guard(func() { text = t.String() })
 	o.Aux["printclass"] = c
 	if c != "ok" {
@@ -157,6 +160,34 @@ func roundTripType(t px.Type, o *Obs) {
 	}
 	if b, err := json.Marshal(types.VerifDecodeType(t2)); err == nil {
 		o.Aux["dec2"] = string(b)
+	}
+}
+
+// expandedObs: an Object type printed in full (types.Expanded: also a named one), parsed back, compared
+func expandedObs(t px.Type, aux map[string]string) {
+	var text string
+	c, m := guard(func() { text = px.ToString2(t, types.Expanded) })
+	aux["exprint"] = c
+	if c != "ok" {
+		aux["exmsg"] = m
+		return
+	}
+	aux["extext"] = hx(text)
+	var t2 px.Type
+	c, m = guard(func() { pcore.Do(func(ctx px.Context) { t2 = ctx.ParseType(text) }) })
+	aux["exparse"] = c
+	if c != "ok" {
+		aux["exmsg"] = m
+		return
+	}
+	eq := false
+	c, _ = guard(func() { eq = t.Equals(t2, nil) && t2.Equals(t, nil) })
+	aux["exeqclass"] = c
+	aux["exequal"] = strconv.FormatBool(eq)
+	var text2 string
+	c, _ = guard(func() { text2 = px.ToString2(t2, types.Expanded) })
+	if c == "ok" {
+		aux["extext2"] = hx(text2)
 	}
 }
 
@@ -214,6 +245,9 @@ func handle(r Req) (o Obs) {
 			panic(err)
 		}
 		var t px.Type
+		if ts.K == "Object" && ts.Obj != nil {
+			guard(func() { objectCase(ts.Obj, o.Aux) })
+		}
 		c, m := guard(func() { t = ts.BuildVia() })
 		if c != "ok" {
 			// the constructor rejects the recipe (e.g. min > max): not a type
